@@ -45,6 +45,11 @@ CLAIMED = {
    text='Proof. For Line/Quadratic/Cubic the traced translated/rotated (explicit and default origin, w = exp(i*rad))/scaled (uniform, default origin; non-uniform coordinate-wise)/transform (every 2x3 affine matrix, invertible or not) are proved to commute with point evaluation as polynomial identities over any field of characteristic 0; for arcs the defining data handed to Arc() is proved to be the image of the old data with flags unchanged. transform_segments_together: for any per-segment transformation, every joint that coincided exactly (cyclically, incl. the closing joint) coincides exactly afterwards (law-free theorem on the model; model run against the real function every run). Sampler: all kinds incl. arcs, negative/small scales, reflection/shear/product/near-identity matrices, closed paths; non-uniform scaled() of an arc must raise.',
    note='Trusted: kernel + standard axioms; translator (numpy.exp/radians replaced by an opaque unit w); correspondence runner. Known finding F8 (transform() on arcs raises TypeError for every matrix) is reported as KNOWN-FINDING, not claimed. That an Arc is determined by its defining data is C04.',
    ref='7 C10'),
+ 'C13': dict(
+   technique='Lean 4 proof: convex-quadratic identities for Line.radialrange, extreme-value argument for the Bezier case on polynomials traced from path.py, list lemmas for first-min/first-max selection and the Path reduction; selection and reduction tied by exact correspondence',
+   text='Proof. Line.radialrange: with q(t) the squared distance, q(t) = q(t*) + |p1-p0|^2 (t-t*)^2 and q(t) = (1-t)q(0) + t q(1) - t(1-t)|p1-p0|^2 (t* = the traced projection parameter), hence for every non-degenerate line and every z the returned ((dmin,tmin),(dmax,tmax)) has both parameters in [0,1], d = |point(t)-z|, and bounds the distance of every point of the segment (all four return shapes). Quadratic/Cubic: the polynomial the code hands to the root finder is proved to be d/dt|B(t)-z|^2 (bridge on traced coefficients); given the root oracle contract the candidates [0,1]+roots contain a global minimiser and maximiser (compactness + Fermat), and the selection returns a minimum/maximum over the candidates with the parameter it was evaluated at. Path.radialrange: the reported minimum is below every segment minimum and carries the index of the segment it came from. Selection and reduction are run against the real functions on exact rationals; a sampler checks global optimality against 4001-point dense evaluation for query points far/near/on the curve/beyond an end/near a centre of curvature, incl. tiny curves.',
+   note='Trusted: kernel + standard axioms; translator; np.roots oracle (contract stated in the theorem); abs/sqrt monotone. Not proved: the dual statement for the Path maximum (modelled and compared, incl. the all-zero case).',
+   ref='7 C13'),
  'C16': dict(
    technique='Lean 4 proof: refinement of the mutable Path (state machine with caches) to the cache-free specification by a representation invariant and induction over the operation history; accuracy-contract theorem for the cubic length cache; models tied by operation-sequence correspondence',
    text='Proof (law-free, so valid verbatim for floats). Model: segment list + _length/_lengths/_length_params/_start/_end caches; mutators __setitem__ (index, slice), __delitem__, insert, and append/extend/pop/reverse derived as collections.abc derives them, start/end setters; queries length (any accuracy), T2t, point, start, end. Theorem history_refines_fresh: from a freshly constructed path, after ANY history of admissible mutations interleaved with queries, every query returns exactly what a newly constructed Path of the current segments returns (invariant + induction over the op list). cubic_cache_accuracy: for any monotone accuracy contract every value returned by CubicBezier.length meets the request for the current control points. Pre-repair setters and hit rule are refuted by kernel-checked witnesses. The models are executed against the real classes on every run (random histories to depth 60 with negative/out-of-range indices and raising ops, exhaustive depth 2/3 over a 17-op alphabet, identity-integrator cache runs); a float sampler compares every public query incl. bbox/d/== with a fresh Path after each operation, with scipy on and off.',
